@@ -36,12 +36,15 @@ def run_core(ctx, props, quick_n=2400, thorough_n=40000, points=(100, 250)):
     if errors:
         ctx.broken.append("correspondence evaluation failed in Coq: %s" % errors[0][1][-400:])
     in_fragment = None
+    in_either = None
     if ok and ({"C01", "C02"} & set(props)):
         ok2, out2 = C.coq_make(["Tie/TieAffine.vo"])
         if ok2:
             frag, e2 = C.eval_cases(ctx, "tiefrag", IMPORTS.replace("Tie.TieC01.", "Tie.TieC01 Tie.TieAffine."), "lcase", lines, fn="in_affine_fragment", shard=60, timeout=30, bisect=False)
             # a shard that does not finish (exact rationals blow up on slowly converging propagation) is simply not counted
             in_fragment = len(frag)
+            frag2, e3 = C.eval_cases(ctx, "tiefrag2", IMPORTS.replace("Tie.TieC01.", "Tie.TieC01 Tie.TieAffine."), "lcase", lines, fn="in_either_fragment", shard=60, timeout=45, bisect=False)
+            in_either = len(frag2)
     # a model evaluation that ran out of time is "unknown", not a mismatch: tolerated while rare (at most 2 or 0.2 % of the
     # stream) and only if the implementation's output on that input passes every implementation-side oracle
     timed_out = sorted(set(getattr(ctx, "eval_timeouts", {}).get("tie", [])))
@@ -93,6 +96,8 @@ def run_core(ctx, props, quick_n=2400, thorough_n=40000, points=(100, 250)):
     }
     if in_fragment is not None:
         cov["tied_models_inside_the_affine_fragment_of_the_end_to_end_theorem"] = in_fragment
+    if in_either is not None:
+        cov["tied_models_inside_the_affine_or_abs_fragment_of_the_end_to_end_theorems"] = in_either
     return rep, cov
 
 
